@@ -18,3 +18,10 @@ claim("C05", "exploration", "Hypothesis: arithmetic vs reference, header-mutatio
       "Four generated sub-checks: exact retarget arithmetic and the id<target comparison against reference formulas; histories with exactly one header rule broken (target, height, reward height, time, future limit, PoW, each evidence field, parent, merkle) under short periods and on fabricated deep states with the real 10,080-block period straddled by forks; the code's PoW evidence and chain sampling against an independent implementation incl. wrap-around; every block produced by the node's own assembly on generated chains (forks, boundaries, pools) passes the reference clauses and add_block.",
       "Trusted: reference formulas, fabricated deep states (filler ancestors not linked), sha256 stand-in for scrypt via the same code path.",
       "DESIGN.md 4/C05")
+
+claim("C03", "exploration", "Hypothesis-generated block trees x enumerated/drawn arrival orders vs replay-from-genesis reference; metamorphic order agreement; snapshot digests",
+      "Generated block trees with transactions (divergent spends, same transaction on two forks) re-delivered in every topological order (<= 6 blocks) or several drawn ones, validated and unvalidated; at every stored block the unspent map and per-key balances equal an independent replay from genesis, the wallet balance equals the reference sum, all orders agree, and every intermediate snapshot keeps its digest.",
+      "Trusted: replay-from-genesis reference, test configuration.", "DESIGN.md 4/C03")
+claim("C04", "exploration", "bounded-exhaustive DFS over all arrival histories (n<=8 / n<=10) + Hypothesis validated histories vs reference fork choice",
+      "Every arrival history of up to 8 (quick) / 10 (thorough) blocks is enumerated (46,234 / 4,037,914 states); after every arrival head, tips, the by-height index of every stored block and forks() are compared with a reference fork choice written from the statement. Random validated histories with transactions add depth beyond the bound. Exhaustive within the bound; exploration beyond it.",
+      "Trusted: reference fork choice (earliest arrival among maximal height), blocks in the exhaustive part are unvalidated reward-only blocks.", "DESIGN.md 4/C04")
